@@ -296,6 +296,13 @@ func (p *PacketOut) UnmarshalBinary(data []byte) error {
 		n += a.Len()
 	}
 
+	if int(n) >= len(data) {
+		// no packet data follows the actions
+		return err
+	}
+	if p.Data == nil {
+		p.Data = new(util.Buffer)
+	}
 	err = p.Data.UnmarshalBinary(data[n:])
 	return err
 }
